@@ -186,8 +186,11 @@ def gen_facts(ctx):
     ctx.log("fact table: " + o.strip()[-600:])
     if rc != 0:
         # never let a stale table stand in for the current tree
-        if os.path.exists(out):
-            os.remove(out)
+        # never let a stale table stand in for the current tree — but keep the project buildable: an EMPTY table makes only the
+        # source-derived files (ProofsSrc / PropertiesSrc) fail, the model-level theorems are still checked
+        os.makedirs(os.path.dirname(out), exist_ok=True)
+        with open(out, "w") as fh:
+            fh.write("(* fact extraction FAILED on this run: no table *)\nDefinition fact_extraction_failed : unit := tt.\n")
         ctx.broken.append("fact extraction from the clang AST failed: " + o.strip()[-300:])
         return None
     ctx.cov["source_facts"] = o.strip()
@@ -216,15 +219,52 @@ def ensure_c01_pipe(ctx):
     return rc == 0
 
 
+class SkipStage(Exception):
+    """raised by run_mode when a scenario cannot run (its harness build is missing / the wall-clock budget is used up)"""
+
+
 def run(ctx):
-    facts = gen_facts(ctx)
-    ensure_c01_pipe(ctx)
-    res = ctx.coq_check(("Properties.v", "PropertiesSrc.v", "PropertiesPipeBridge.v"))
-    bridge_thms = vlib.theorem_names(open(os.path.join(ctx.coqdir, "PropertiesPipeBridge.v")).read())
-    ctx.cov["pipe_bridge_theorems"] = {n: bool(res.get(n)) for n in bridge_thms}
-    src_broken = [n for n, v in res.items() if not v and n not in bridge_thms]
-    model = ctx.extract() if facts else None
-    model_says = {}
+    """Every stage is isolated: a failure is recorded in ctx.broken (stage + first error line) and the run continues with
+    everything that does not strictly need the failed artefact; the harness + its own oracles run whenever a build exists."""
+    try:
+        _run(ctx)
+    except Exception as ex:      # last resort: bin/vcheck must still reach ctx.finish() and write the evidence
+        import traceback
+        ctx.broken.append("check aborted by an exception outside any stage: %s: %s | %s" % (type(ex).__name__, str(ex)[:200],
+                                                                                          traceback.format_exc().strip().split("\n")[-3][:160]))
+
+
+def _run(ctx):
+    import time, traceback
+    deadline = ctx.t0 + int(os.environ.get("VERIF_BUDGET_S", ctx.pick(240, 2400)))      # wall-clock budget of the whole run
+    skipped = []
+
+    def stage_fail(stage, ex):
+        tb = traceback.format_exc().strip().split("\n")
+        where = [x.strip() for x in tb if x.strip().startswith("File")][-1:] or [""]
+        ctx.broken.append("stage failed: %s: %s: %s (%s)" % (stage, type(ex).__name__, str(ex)[:200], where[0][:120]))
+        ctx.log("stage failed: %s: %s" % (stage, tb[-1][:200]))
+
+    facts, res, bridge_thms, src_broken, model, model_says = None, {}, [], [], None, {}
+    try:
+        facts = gen_facts(ctx)
+    except Exception as ex:
+        stage_fail("fact extraction (tools/c02facts)", ex)
+    try:
+        ensure_c01_pipe(ctx)
+        res = ctx.coq_check(("Properties.v", "PropertiesSrc.v", "PropertiesPipeBridge.v"))
+        bridge_thms = vlib.theorem_names(open(os.path.join(ctx.coqdir, "PropertiesPipeBridge.v")).read())
+        ctx.cov["pipe_bridge_theorems"] = {n: bool(res.get(n)) for n in bridge_thms}
+        src_broken = [n for n, v in res.items() if not v and n not in bridge_thms]
+        first_err = re.findall(r'File "[^"]+", line \d+[^\n]*\n(?:[^\n]*\n){0,3}?Error:[^\n]*', getattr(ctx, "coq_log", ""))
+        if first_err:
+            ctx.cov["coq_first_error"] = first_err[0][-300:]
+    except Exception as ex:
+        stage_fail("Coq build", ex)
+    try:
+        model = ctx.extract() if facts else None
+    except Exception as ex:
+        stage_fail("extraction / OCaml model build", ex)
     if model:
         rc, out, err = ctx.run_exe(model, [], stdin="CHECK\nASYNC\nUAF\n")
         ls = out.strip().split("\n")
@@ -244,7 +284,19 @@ def run(ctx):
     jobs += [dict(sources=["harness.cpp"], out="ht_" + b, backend=b, sanitize="tsan") for b in tsan]
     exes = ctx.cxx_many(jobs)
     hx = dict(zip([j["out"] for j in jobs], exes))
-    if any(e is None for e in exes):
+    # a failed build: retry once with a wider source list (a changed header may newly need other repo sources); then go on
+    # with whatever exists — the harness and its own oracles do not need the model, and one backend does not need the others
+    for j in jobs:
+        if hx.get(j["out"]) is None:
+            ctx.log("build of %s failed: retrying with rkcommon/common.cpp, os/library.cpp, -ldl" % j["out"])
+            try:
+                hx[j["out"]] = ctx.cxx(**dict(j, repo_sources=["rkcommon/common.cpp", "rkcommon/os/library.cpp"], libs=["-ldl"]))
+            except Exception as ex:
+                stage_fail("harness build " + j["out"], ex)
+    if hx.get("hw_internal") is None:
+        hx["hw_internal"] = hx.get("h_internal")       # timing-sensitive scenarios fall back to the ASan build
+    if not any(hx.get("h_" + b) for b in BACKENDS):
+        ctx.broken.append("no harness build succeeded: nothing can be run against the tree")
         return
 
     bursts = ctx.pick([1, 10, 1000], [1, 10, 1000, 100000])
@@ -260,7 +312,12 @@ def run(ctx):
                                                required=required, stderr_tail=stderr[-1500:]))
 
     def run_mode(b, args, timeout=300, prefix="h_"):
-        rc, out, err = ctx.run_exe(hx[prefix + b], args, timeout=timeout)
+        exe = hx.get(prefix + b.split("(")[0])
+        left = deadline - time.time()
+        if exe is None or left < 5:
+            skipped.append("%s %s%s" % (b, " ".join(args), " (no build)" if exe is None else " (budget)"))
+            raise SkipStage()
+        rc, out, err = ctx.run_exe(exe, args, timeout=max(5, min(timeout, left)))
         lines = [l for l in out.split("\n") if l.strip()]
         hist[args[0]] = hist.get(args[0], 0) + 1
         hist_b[b.split("(")[0] + ":" + args[0]] = hist_b.get(b.split("(")[0] + ":" + args[0], 0) + 1
@@ -269,318 +326,414 @@ def run(ctx):
     trace_cases = []   # (backend, args, line, fields)
     parked_short, pipe_full_inline, wake_calls, owner_iters, teardown_cases, reinit_fail = [], {}, {}, {}, [0], []
     for b in BACKENDS:
-        # ---- schedule(): bursts, exactly once after quiescence, no caller action
-        for n in bursts:
-            if b == "omp" and n > 20000:
-                n = 20000          # one detached std::thread per closure: keep the thread count sane
-            args = ["burst", str(n)]
-            rc, lines, err = run_mode(b, args, timeout=600)
-            ctx.count(n)
-            if rc != 0:
-                bad("schedule-crash", b, args, "harness rc=%d: %s" % (rc, san_summary(err)), "no crash, no sanitizer report", err)
-                continue
-            f = kv(lines[-1]) if lines else {}
-            if f.get("once") != str(n) or f.get("zero") != "0" or f.get("multi") != "0":
-                bad("schedule-count", b, args, lines[-1] if lines else "<no output>",
-                    "every one of the %d closures executed exactly once without further caller action" % n)
-            elif n > 1:
-                ctx.nontriv(("burst", b, n))
-        # ---- more pending schedule() calls than the internal pipe has slots (256), all workers parked
-        for T in (2, 4):
-            for n in (300, 1000):
-                args = ["parkburst", str(T), str(n)]
-                rc, lines, err = run_mode(b, args, timeout=120)
+        if hx.get("h_" + b) is None:
+            ctx.broken.append("harness build for the %s backend is missing: its scenarios are skipped" % b)
+            continue
+        try:
+            # ---- schedule(): bursts, exactly once after quiescence, no caller action
+            for n in bursts:
+                if b == "omp" and n > 20000:
+                    n = 20000          # one detached std::thread per closure: keep the thread count sane
+                args = ["burst", str(n)]
+                rc, lines, err = run_mode(b, args, timeout=600)
                 ctx.count(n)
                 if rc != 0:
-                    bad("schedule-crash", b, args, "harness rc=%d: %s" % (rc, san_summary(err)), "no crash, no sanitizer report, no hang", err)
+                    bad("schedule-crash", b, args, "harness rc=%d: %s" % (rc, san_summary(err)), "no crash, no sanitizer report", err)
                     continue
                 f = kv(lines[-1]) if lines else {}
-                want = f.get("parked", "0/0").split("/")
-                req = []
                 if f.get("once") != str(n) or f.get("zero") != "0" or f.get("multi") != "0":
-                    req.append("every one of the %d closures executed exactly once (none lost when the pipe is full, none duplicated)" % n)
-                if int(f.get("live_closure_state", "99999")) > T:
-                    req.append("heap state of executed closures released (at most one deferred task per tasking thread may remain)")
-                if f.get("parkers_done") != want[-1]:
-                    req.append("the parked closures themselves complete")
-                if req:
-                    bad("schedule-count", b, args, lines[-1] if lines else "<no output>", "; ".join(req))
-                else:
-                    if want[0] != want[-1]:
-                        parked_short.append((b, args, f.get("parked")))
-                    if b == "internal":
-                        pipe_full_inline[" ".join(args)] = int(f.get("ran_on_caller", "0"))
-                    if b != "debug":
-                        ctx.nontriv(("parkburst", b, T, n))
-        # ---- schedule() uses the CALLER's arena / a per-call object on every call: first call of a functor type from inside a
-        # small tbb::task_arena(2,1) with a long-running closure, later calls of the same type from the main thread
-        if b != "debug":
-            args = ["arena", "5"]
-            rc, lines, err = run_mode(b, args, timeout=120)
-            f = kv(lines[-1]) if lines else {}
-            ctx.count(5)
-            if rc != 0 or not f:
-                bad("schedule-crash", b, args, "harness rc=%d: %s" % (rc, san_summary(err)), "no crash, no hang", err)
-            elif f.get("ran_within_2s") != f.get("later_calls") or f.get("long_running_started") != "1":
-                bad("schedule-starved", b, args, lines[-1],
-                    "a closure scheduled from the main thread runs within 2 s although an earlier closure of the same functor type "
-                    "(scheduled first%s) is still running" % (" from inside tbb::task_arena(2,1)" if b == "tbb" else ""))
-            else:
-                ctx.nontriv(("arena", b))
-        # ---- a task queued by a busy worker (in that worker's own pipe) must be stolen by another worker
-        if b != "debug":
-            for T in (3, 4):
-                args = ["steal", str(T), str(ctx.pick(40, 200))]
+                    bad("schedule-count", b, args, lines[-1] if lines else "<no output>",
+                        "every one of the %d closures executed exactly once without further caller action" % n)
+                elif n > 1:
+                    ctx.nontriv(("burst", b, n))
+        except SkipStage:
+            pass
+        except Exception as ex:
+            stage_fail("scenario group [schedule(): bursts, exactly once after quiescence, no] on the %s backend" % b, ex)
+        try:
+            # ---- more pending schedule() calls than the internal pipe has slots (256), all workers parked
+            for T in (2, 4):
+                for n in (300, 1000):
+                    args = ["parkburst", str(T), str(n)]
+                    rc, lines, err = run_mode(b, args, timeout=120)
+                    ctx.count(n)
+                    if rc != 0:
+                        bad("schedule-crash", b, args, "harness rc=%d: %s" % (rc, san_summary(err)), "no crash, no sanitizer report, no hang", err)
+                        continue
+                    f = kv(lines[-1]) if lines else {}
+                    want = f.get("parked", "0/0").split("/")
+                    req = []
+                    if f.get("once") != str(n) or f.get("zero") != "0" or f.get("multi") != "0":
+                        req.append("every one of the %d closures executed exactly once (none lost when the pipe is full, none duplicated)" % n)
+                    if int(f.get("live_closure_state", "99999")) > T:
+                        req.append("heap state of executed closures released (at most one deferred task per tasking thread may remain)")
+                    if f.get("parkers_done") != want[-1]:
+                        req.append("the parked closures themselves complete")
+                    if req:
+                        bad("schedule-count", b, args, lines[-1] if lines else "<no output>", "; ".join(req))
+                    else:
+                        if want[0] != want[-1]:
+                            parked_short.append((b, args, f.get("parked")))
+                        if b == "internal":
+                            pipe_full_inline[" ".join(args)] = int(f.get("ran_on_caller", "0"))
+                        if b != "debug":
+                            ctx.nontriv(("parkburst", b, T, n))
+        except SkipStage:
+            pass
+        except Exception as ex:
+            stage_fail("scenario group [more pending schedule() calls than the internal pipe ] on the %s backend" % b, ex)
+        try:
+            # ---- schedule() uses the CALLER's arena / a per-call object on every call: first call of a functor type from inside a
+            # small tbb::task_arena(2,1) with a long-running closure, later calls of the same type from the main thread
+            if b != "debug":
+                args = ["arena", "5"]
                 rc, lines, err = run_mode(b, args, timeout=120)
                 f = kv(lines[-1]) if lines else {}
-                ctx.count(int(f.get("completed", "0")))
+                ctx.count(5)
                 if rc != 0 or not f:
                     bad("schedule-crash", b, args, "harness rc=%d: %s" % (rc, san_summary(err)), "no crash, no hang", err)
-                elif f.get("inner_not_run_within_2s") != "0" or f.get("completed") != f.get("iters"):
-                    bad("schedule-starved", b, args, lines[-1] + "   [closure A (on a worker) schedules closure B and spins; another worker must steal B]",
-                        "a closure scheduled from inside a running closure is executed within 2 s by another tasking thread (%d threads)" % T)
+                elif f.get("ran_within_2s") != f.get("later_calls") or f.get("long_running_started") != "1":
+                    bad("schedule-starved", b, args, lines[-1],
+                        "a closure scheduled from the main thread runs within 2 s although an earlier closure of the same functor type "
+                        "(scheduled first%s) is still running" % (" from inside tbb::task_arena(2,1)" if b == "tbb" else ""))
                 else:
-                    ctx.nontriv(("steal", b, T))
-        # ---- wake-up: one schedule() at a time, timed (sweep 0..100 us) to the idle worker's spin-to-sleep transition
-        for T, ms in ((2, ctx.pick(5000, 30000)), (3, ctx.pick(1500, 10000))) if b == "internal" else ((2, ctx.pick(400, 2000)),):
-            args = ["wakeup", str(T), str(ms)]
-            rc, lines, err = run_mode(b, args, timeout=120 + ms // 1000, prefix="hw_" if b == "internal" else "h_")
-            f = kv(lines[-1]) if lines else {}
-            ctx.count(int(f.get("calls", "0")))
-            wake_calls[b + ":T=%d" % T] = int(f.get("calls", "0"))
-            if rc != 0 or not f:
-                bad("schedule-crash", b, args, "harness rc=%d: %s" % (rc, san_summary(err)), "no crash, no hang", err)
-            elif f.get("lost") != "0":
-                bad("schedule-lost-wakeup", b, args, lines[-1] + "   [%s build, g++ %s]" % (("un-instrumented", "-O2") if b == "internal" else ("ASan", "-O1")),
-                    "every schedule()d closure is executed within 2 s while the caller stays idle (no lost wake-up): call number %s, issued "
-                    "%s us after the previous closure finished, was not run" % (f.get("calls"), f.get("delay_us_of_lost_call")))
-            else:
-                ctx.nontriv(("wakeup", b, T))
-        # ---- scheduler teardown: bursts (with follow-up chains of depth 0..3) IMMEDIATELY followed by re-initialisation of the
-        # tasking system, or by process exit (verdict written by an ELF destructor after all static destructors)
-        if b == "internal":
-            nt = ctx.pick(60, 400)
-            for T in (1, 2, 3, 8):
-                cases = [["teardown", "reinit", str(T), str(T2), str(nt), str(d)] for d in (0, 1, 3) for T2 in ((2,) if d else (2, 1))]
-                cases += [["teardown", "exit", str(T), str(nt), str(d)] for d in (0, 2)]
-                for args in cases:
-                    rc, lines, err = run_mode(b, args, timeout=60)
-                    tl = [l for l in lines if l.startswith("TEARDOWN")]
-                    f = kv(tl[-1]) if tl else {}
-                    depth = int(args[-1])
-                    ctx.count(nt * (depth + 1))
-                    teardown_cases[0] += 1
-                    what = ("initTaskingSystem(%s); %s schedule() calls, each closure scheduling a follow-up chain of depth %d; then at once %s"
-                            % (args[2], nt, depth, "initTaskingSystem(%s)" % args[3] if args[1] == "reinit" else "return from main()"))
-                    good = bool(f) and rc == 0 and "HANG" not in tl[-1] and f.get("zero") == "0" and f.get("multi") == "0" and f.get("once") == f.get("tasks")
-                    if good:
-                        ctx.nontriv(("teardown", tuple(args)))
-                        continue
-                    observed = (tl[-1] if tl else "harness rc=%d: %s" % (rc, san_summary(err)))
-                    required = "when the teardown has returned every closure scheduled before or during it has run exactly once"
-                    if args[1] == "reinit" and depth >= 1 and not tl:
-                        reinit_fail.append(" ".join(args))
-                        if len(reinit_fail) > 1:
-                            continue          # one report; all failing configurations are listed in the coverage
-                        # follow-up handed to the new, not yet initialised scheduler (g_ts replaced before the old scheduler is drained)
-                        ctx.violation("internal backend: " + what + ": " + observed,
-                                      {"backend": b, "harness_args": " ".join(args), "scenario": what, "observed": observed, "required": required,
-                                       "stderr_tail": err[-1500:]}, signature=REINIT_SIG)
+                    ctx.nontriv(("arena", b))
+        except SkipStage:
+            pass
+        except Exception as ex:
+            stage_fail("scenario group [schedule() uses the CALLER's arena / a per-call objec] on the %s backend" % b, ex)
+        try:
+            # ---- a task queued by a busy worker (in that worker's own pipe) must be stolen by another worker
+            if b != "debug":
+                for T in (3, 4):
+                    args = ["steal", str(T), str(ctx.pick(40, 200))]
+                    rc, lines, err = run_mode(b, args, timeout=120)
+                    f = kv(lines[-1]) if lines else {}
+                    ctx.count(int(f.get("completed", "0")))
+                    if rc != 0 or not f:
+                        bad("schedule-crash", b, args, "harness rc=%d: %s" % (rc, san_summary(err)), "no crash, no hang", err)
+                    elif f.get("inner_not_run_within_2s") != "0" or f.get("completed") != f.get("iters"):
+                        bad("schedule-starved", b, args, lines[-1] + "   [closure A (on a worker) schedules closure B and spins; another worker must steal B]",
+                            "a closure scheduled from inside a running closure is executed within 2 s by another tasking thread (%d threads)" % T)
                     else:
-                        bad("schedule-teardown", b, args, observed + "   [" + what + "]", required, err)
-        # ---- pipe owner and thief race for the ONLY queued item (internal backend; un-instrumented -O2 build and ASan build)
-        if b == "internal":
-            for pre, label in (("hw_", "un-instrumented -O2"), ("h_", "ASan -O1")):
-                for T in (2, 4):
-                    for variant in ("get", "drop", "pf"):
-                        ms = ctx.pick(350, 2500) if pre == "hw_" else ctx.pick(200, 1500)
-                        args = ["ownerthief", str(T), variant, str(ms)]
-                        rc, lines, err = run_mode(b, args, timeout=60 + ms // 1000, prefix=pre)
-                        ol = [l for l in lines if l.startswith("OWNERTHIEF")]
-                        f = kv(ol[-1]) if ol else {}
-                        ctx.count(int(f.get("iters", "0")))
-                        owner_iters[variant] = owner_iters.get(variant, 0) + int(f.get("iters", "0"))
-                        desc = {"get": "AsyncTask<int> construct + immediate get()", "drop": "AsyncTask<int> construct + immediate destruction",
-                                "pf": "schedule() of one closure + parallel_for(1) on the caller"}[variant]
-                        if rc != 0 or not f:
-                            bad("schedule-owner-thief", b, args, "harness rc=%d (%s build): %s  [tight loop of %s, %d tasking threads]"
-                                % (rc, label, san_summary(err), desc, T), "no crash, no sanitizer report", err)
-                        elif not (f.get("twice") == "0" and f.get("zero") == "0" and f.get("wrong_value") == "0" and f.get("hang") == "0"):
-                            bad("schedule-owner-thief", b, args, ol[-1] + "   [%s build; tight loop of %s]" % (label, desc),
-                                "every task body runs exactly once and the loop does not hang (the queuing thread and a stealing worker "
-                                "must not both claim the only queued item)")
+                        ctx.nontriv(("steal", b, T))
+        except SkipStage:
+            pass
+        except Exception as ex:
+            stage_fail("scenario group [a task queued by a busy worker (in that worker's own ] on the %s backend" % b, ex)
+        try:
+            # ---- wake-up: one schedule() at a time, timed (sweep 0..100 us) to the idle worker's spin-to-sleep transition
+            for T, ms in ((2, ctx.pick(5000, 30000)), (3, ctx.pick(1500, 10000))) if b == "internal" else ((2, ctx.pick(400, 2000)),):
+                args = ["wakeup", str(T), str(ms)]
+                rc, lines, err = run_mode(b, args, timeout=120 + ms // 1000, prefix="hw_" if b == "internal" else "h_")
+                f = kv(lines[-1]) if lines else {}
+                ctx.count(int(f.get("calls", "0")))
+                wake_calls[b + ":T=%d" % T] = int(f.get("calls", "0"))
+                if rc != 0 or not f:
+                    bad("schedule-crash", b, args, "harness rc=%d: %s" % (rc, san_summary(err)), "no crash, no hang", err)
+                elif f.get("lost") != "0":
+                    bad("schedule-lost-wakeup", b, args, lines[-1] + "   [%s build, g++ %s]" % (("un-instrumented", "-O2") if b == "internal" else ("ASan", "-O1")),
+                        "every schedule()d closure is executed within 2 s while the caller stays idle (no lost wake-up): call number %s, issued "
+                        "%s us after the previous closure finished, was not run" % (f.get("calls"), f.get("delay_us_of_lost_call")))
+                else:
+                    ctx.nontriv(("wakeup", b, T))
+        except SkipStage:
+            pass
+        except Exception as ex:
+            stage_fail("scenario group [wake-up: one schedule() at a time, timed (sweep 0..10] on the %s backend" % b, ex)
+        try:
+            # ---- scheduler teardown: bursts (with follow-up chains of depth 0..3) IMMEDIATELY followed by re-initialisation of the
+            # tasking system, or by process exit (verdict written by an ELF destructor after all static destructors)
+            if b == "internal":
+                nt = ctx.pick(60, 400)
+                for T in (1, 2, 3, 8):
+                    cases = [["teardown", "reinit", str(T), str(T2), str(nt), str(d)] for d in (0, 1, 3) for T2 in ((2,) if d else (2, 1))]
+                    cases += [["teardown", "exit", str(T), str(nt), str(d)] for d in (0, 2)]
+                    for args in cases:
+                        rc, lines, err = run_mode(b, args, timeout=60)
+                        tl = [l for l in lines if l.startswith("TEARDOWN")]
+                        f = kv(tl[-1]) if tl else {}
+                        depth = int(args[-1])
+                        ctx.count(nt * (depth + 1))
+                        teardown_cases[0] += 1
+                        what = ("initTaskingSystem(%s); %s schedule() calls, each closure scheduling a follow-up chain of depth %d; then at once %s"
+                                % (args[2], nt, depth, "initTaskingSystem(%s)" % args[3] if args[1] == "reinit" else "return from main()"))
+                        good = bool(f) and rc == 0 and "HANG" not in tl[-1] and f.get("zero") == "0" and f.get("multi") == "0" and f.get("once") == f.get("tasks")
+                        if good:
+                            ctx.nontriv(("teardown", tuple(args)))
+                            continue
+                        observed = (tl[-1] if tl else "harness rc=%d: %s" % (rc, san_summary(err)))
+                        required = "when the teardown has returned every closure scheduled before or during it has run exactly once"
+                        if args[1] == "reinit" and depth >= 1 and not tl:
+                            reinit_fail.append(" ".join(args))
+                            if len(reinit_fail) > 1:
+                                continue          # one report; all failing configurations are listed in the coverage
+                            # follow-up handed to the new, not yet initialised scheduler (g_ts replaced before the old scheduler is drained)
+                            ctx.violation("internal backend: " + what + ": " + observed,
+                                          {"backend": b, "harness_args": " ".join(args), "scenario": what, "observed": observed, "required": required,
+                                           "stderr_tail": err[-1500:]}, signature=REINIT_SIG)
                         else:
-                            ctx.nontriv(("ownerthief", pre, T, variant))
-        # ---- a scheduled closure that schedules a same-type closure and then waits inside the tasking system
-        for T in (2, 3):
-            args = ["nested", str(T), str(ctx.pick(8, 30))]
-            rc, lines, err = run_mode(b, args, timeout=120)
-            ctx.count(2 * int(args[2]))
-            nl = [l for l in lines if l.startswith("NESTED")]
-            if rc != 0:
-                bad("schedule-nested", b, args, "harness rc=%d: %s  [scenario: OUTER scheduled closure (functor Job, heap state + canary) "
-                    "schedules an INNER Job and blocks in %s; last line: %s]"
-                    % (rc, san_summary(err), "AsyncTask<int>::get()" if len(nl) == 0 else "a nested parallel_for", nl[-1] if nl else "-"),
-                    "no sanitizer report: neither closure is released while it runs", err)
-                continue
-            for l in nl:
-                f = kv(l)
-                it = f.get("iters")
-                if not (f.get("completed") == it and f.get("outer") == it and f.get("inner") == it and f.get("outer_done") == it
-                        and f.get("corrupt") == "0"):
-                    bad("schedule-nested", b, args, l, "every OUTER and INNER closure runs exactly once and finds its own heap state / canary intact")
-                elif b != "debug":
-                    ctx.nontriv(("nested", b, T, f.get("wait")))
-            if len(nl) != 2:
-                bad("schedule-nested", b, args, "only %d of 2 result lines" % len(nl), "both wait kinds complete")
-        # ---- facts about AsyncTask's implicitly-declared special members (inventory)
-        rc, lines, err = run_mode(b, ["traits"], timeout=60)
-        if rc == 0 and lines:
-            traits[b] = kv(lines[-1])
-        # ---- async()
-        args = ["async", str(areps)]
-        rc, lines, err = run_mode(b, args)
-        if rc != 0:
-            bad("schedule-crash", b, args, "harness rc=%d: %s" % (rc, san_summary(err)), "no crash, no sanitizer report", err)
-        for l in lines:
-            f = kv(l)
-            ctx.count(int(f.get("reps", "0")))
-            if f.get("bad") != "0" or f.get("fcn_calls") != f.get("reps"):
-                bad("async-value", b, args, l, "future.get() == the value the function returned; function called once per async()")
-            elif f.get("type") != "int":
-                ctx.nontriv(("async", b, f.get("type")))
-        if b == "debug":
-            # the heap packaged_task must be deleted: LeakSanitizer on the deterministic single-threaded backend
-            rc, out, err = ctx.run_exe(hx["h_debug"], ["async", "3"], timeout=300,
-                                       env={"ASAN_OPTIONS": "detect_leaks=1:exitcode=99:abort_on_error=0"})
-            hist["async-leakcheck"] = hist.get("async-leakcheck", 0) + 1
-            if rc != 0 and "LeakSanitizer" in err:
-                m = re.findall(r"#\d+ 0x[0-9a-f]+ in ([^\n]*async\.h:\d+)", err)
-                bad("async-leak", b, ["async", "3"], "LeakSanitizer: %s; allocated at %s" % (san_summary(err), m[0][:200] if m else "?"),
-                    "the heap packaged_task is deleted exactly once after use", err)
-        # ---- AsyncTask<T>
-        for ty in TYPES:
-            args = ["asynctask", str(treps), ty]
+                            bad("schedule-teardown", b, args, observed + "   [" + what + "]", required, err)
+        except SkipStage:
+            pass
+        except Exception as ex:
+            stage_fail("scenario group [scheduler teardown: bursts (with follow-up chains of ] on the %s backend" % b, ex)
+        try:
+            # ---- pipe owner and thief race for the ONLY queued item (internal backend; un-instrumented -O2 build and ASan build)
+            if b == "internal":
+                for pre, label in (("hw_", "un-instrumented -O2"), ("h_", "ASan -O1")):
+                    for T in (2, 4):
+                        for variant in ("get", "drop", "pf"):
+                            ms = ctx.pick(350, 2500) if pre == "hw_" else ctx.pick(200, 1500)
+                            args = ["ownerthief", str(T), variant, str(ms)]
+                            rc, lines, err = run_mode(b, args, timeout=60 + ms // 1000, prefix=pre)
+                            ol = [l for l in lines if l.startswith("OWNERTHIEF")]
+                            f = kv(ol[-1]) if ol else {}
+                            ctx.count(int(f.get("iters", "0")))
+                            owner_iters[variant] = owner_iters.get(variant, 0) + int(f.get("iters", "0"))
+                            desc = {"get": "AsyncTask<int> construct + immediate get()", "drop": "AsyncTask<int> construct + immediate destruction",
+                                    "pf": "schedule() of one closure + parallel_for(1) on the caller"}[variant]
+                            if rc != 0 or not f:
+                                bad("schedule-owner-thief", b, args, "harness rc=%d (%s build): %s  [tight loop of %s, %d tasking threads]"
+                                    % (rc, label, san_summary(err), desc, T), "no crash, no sanitizer report", err)
+                            elif not (f.get("twice") == "0" and f.get("zero") == "0" and f.get("wrong_value") == "0" and f.get("hang") == "0"):
+                                bad("schedule-owner-thief", b, args, ol[-1] + "   [%s build; tight loop of %s]" % (label, desc),
+                                    "every task body runs exactly once and the loop does not hang (the queuing thread and a stealing worker "
+                                    "must not both claim the only queued item)")
+                            else:
+                                ctx.nontriv(("ownerthief", pre, T, variant))
+        except SkipStage:
+            pass
+        except Exception as ex:
+            stage_fail("scenario group [pipe owner and thief race for the ONLY queued item (i] on the %s backend" % b, ex)
+        try:
+            # ---- a scheduled closure that schedules a same-type closure and then waits inside the tasking system
+            for T in (2, 3):
+                args = ["nested", str(T), str(ctx.pick(8, 30))]
+                rc, lines, err = run_mode(b, args, timeout=120)
+                ctx.count(2 * int(args[2]))
+                nl = [l for l in lines if l.startswith("NESTED")]
+                if rc != 0:
+                    bad("schedule-nested", b, args, "harness rc=%d: %s  [scenario: OUTER scheduled closure (functor Job, heap state + canary) "
+                        "schedules an INNER Job and blocks in %s; last line: %s]"
+                        % (rc, san_summary(err), "AsyncTask<int>::get()" if len(nl) == 0 else "a nested parallel_for", nl[-1] if nl else "-"),
+                        "no sanitizer report: neither closure is released while it runs", err)
+                    continue
+                for l in nl:
+                    f = kv(l)
+                    it = f.get("iters")
+                    if not (f.get("completed") == it and f.get("outer") == it and f.get("inner") == it and f.get("outer_done") == it
+                            and f.get("corrupt") == "0"):
+                        bad("schedule-nested", b, args, l, "every OUTER and INNER closure runs exactly once and finds its own heap state / canary intact")
+                    elif b != "debug":
+                        ctx.nontriv(("nested", b, T, f.get("wait")))
+                if len(nl) != 2:
+                    bad("schedule-nested", b, args, "only %d of 2 result lines" % len(nl), "both wait kinds complete")
+        except SkipStage:
+            pass
+        except Exception as ex:
+            stage_fail("scenario group [a scheduled closure that schedules a same-type closur] on the %s backend" % b, ex)
+        try:
+            # ---- facts about AsyncTask's implicitly-declared special members (inventory)
+            rc, lines, err = run_mode(b, ["traits"], timeout=60)
+            if rc == 0 and lines:
+                traits[b] = kv(lines[-1])
+        except SkipStage:
+            pass
+        except Exception as ex:
+            stage_fail("scenario group [facts about AsyncTask's implicitly-declared special m] on the %s backend" % b, ex)
+        try:
+            # ---- async()
+            args = ["async", str(areps)]
             rc, lines, err = run_mode(b, args)
             if rc != 0:
-                bad("asynctask-crash", b, args, "harness rc=%d: %s" % (rc, san_summary(err)), "no crash, no sanitizer report", err)
+                bad("schedule-crash", b, args, "harness rc=%d: %s" % (rc, san_summary(err)), "no crash, no sanitizer report", err)
             for l in lines:
-                if not l.startswith("AT "):
-                    continue
                 f = kv(l)
-                ctx.count()
-                sc = f["script"]
-                script_hist[sc] = script_hist.get(sc, 0) + 1
-                vals = [] if f["vals"] == "-" else f["vals"].split(",")
-                req = []
-                if vals != ["result"] * NGETS[sc]:
-                    req.append("get() returns exactly the value fcn returned")
-                if f["calls"] != "1":
-                    req.append("fcn executed exactly once")
-                if f["ended_at_dtor_return"] != "1":
-                    req.append("~AsyncTask returns only after the task has ended")
-                if sc in ("finget", "finfinget", "waitget") and f["fin"] != "1":
-                    req.append("finished() is true after wait()/polling")
-                if sc in ("finget", "finfinget") and float(f["get_ms"]) > 100.0:
-                    req.append("finished()==true implies get() does not block (took %s ms)" % f["get_ms"])
-                if req:
-                    bad("asynctask-value", b, args, l, "; ".join(req))
-                else:
-                    if ty != "int" or f["work_ms"] != "0":
-                        ctx.nontriv(("at", b, ty, sc, f["work_ms"]))
-                if ty == "tracked":
-                    trace_cases.append((b, args, l, f))
-        # ---- destroy while running
-        args = ["destroy", str(dreps)]
-        rc, lines, err = run_mode(b, args)
-        ctx.count(dreps)
-        if rc != 0:
-            bad("asynctask-crash", b, args, "harness rc=%d: %s" % (rc, san_summary(err)), "no crash, no sanitizer report", err)
-        elif not lines or kv(lines[-1]).get("not") != "0":
-            bad("asynctask-dtor", b, args, lines[-1] if lines else "<no output>", "destroying an AsyncTask first waits for its task")
-        else:
-            ctx.nontriv(("destroy", b))
-        # ---- one tasking thread, the caller never waits
-        args = ["onethread"]
-        rc, lines, err = run_mode(b, args)
-        ctx.count()
-        f = kv(lines[-1]) if lines else {}
-        if f.get("ran_without_caller_action") == "0":
-            what = ("%s backend initialised with 1 thread: a schedule()d closure had not run after 1.5 s without caller action "
-                    "(after a following parallel_for: ran=%s)" % (b, f.get("ran_after_caller_waited")))
-            if b == "internal":
-                ctx.violation(what, {"backend": b, "harness_args": "onethread", "observed": lines[-1],
-                                     "required": "executed exactly once, eventually, with no further action required from the caller"},
-                              signature=ONETHREAD_SIG)
-            else:
-                bad("onethread", b, args, lines[-1], "executed eventually without caller action")
-        if rc != 0:
-            bad("schedule-crash", b, args, "harness rc=%d: %s" % (rc, san_summary(err)), "no crash, no sanitizer report", err)
-
-    # ---- trace validation of the instrumented payload against the extracted model
-    if model and trace_cases:
-        cases = ["T 0 " + f["trace"] for (_, _, _, f) in trace_cases]
-        rc, mlines, merr = vlib.run_lines(ctx, model, [], cases)
-        if rc != 0 or len(mlines) != len(cases):
-            ctx.broken.append("model driver failed on traces rc=%s" % rc)
-        else:
-            thist = {}
-            for (b, args, l, f), ml in zip(trace_cases, mlines):
-                tr = f["trace"]
-                thist[tr] = thist.get(tr, 0) + 1
-                harness_clean = tr == tr.upper()                  # live-set of the harness saw no out-of-lifetime operation
-                model_accepts = ml.startswith("accept")
-                want_reads = ",".join(["result"] * NGETS[f["script"]]) or "-"
-                ok = (model_accepts and harness_clean and ("final=Dead:result" in ml) and ml.endswith("reads=" + want_reads)
-                      and tr.upper().count("A") == 1)
-                if not ok:
-                    if model_accepts == harness_clean or not harness_clean:
-                        bad("asynctask-trace", b, args, l + "   [model: %s]" % ml,
-                            "slot trace = construct; one assign; one read per get(); destroy — each inside the lifetime "
-                            "(a trace the extracted model produces)")
+                ctx.count(int(f.get("reps", "0")))
+                if f.get("bad") != "0" or f.get("fcn_calls") != f.get("reps"):
+                    bad("async-value", b, args, l, "future.get() == the value the function returned; function called once per async()")
+                elif f.get("type") != "int":
+                    ctx.nontriv(("async", b, f.get("type")))
+            if b == "debug":
+                # the heap packaged_task must be deleted: LeakSanitizer on the deterministic single-threaded backend
+                rc, out, err = ctx.run_exe(hx["h_debug"], ["async", "3"], timeout=300,
+                                           env={"ASAN_OPTIONS": "detect_leaks=1:exitcode=99:abort_on_error=0"})
+                hist["async-leakcheck"] = hist.get("async-leakcheck", 0) + 1
+                if rc != 0 and "LeakSanitizer" in err:
+                    m = re.findall(r"#\d+ 0x[0-9a-f]+ in ([^\n]*async\.h:\d+)", err)
+                    bad("async-leak", b, ["async", "3"], "LeakSanitizer: %s; allocated at %s" % (san_summary(err), m[0][:200] if m else "?"),
+                        "the heap packaged_task is deleted exactly once after use", err)
+        except SkipStage:
+            pass
+        except Exception as ex:
+            stage_fail("scenario group [async()] on the %s backend" % b, ex)
+        try:
+            # ---- AsyncTask<T>
+            for ty in TYPES:
+                args = ["asynctask", str(treps), ty]
+                rc, lines, err = run_mode(b, args)
+                if rc != 0:
+                    bad("asynctask-crash", b, args, "harness rc=%d: %s" % (rc, san_summary(err)), "no crash, no sanitizer report", err)
+                for l in lines:
+                    if not l.startswith("AT "):
+                        continue
+                    f = kv(l)
+                    ctx.count()
+                    sc = f["script"]
+                    script_hist[sc] = script_hist.get(sc, 0) + 1
+                    vals = [] if f["vals"] == "-" else f["vals"].split(",")
+                    req = []
+                    if vals != ["result"] * NGETS[sc]:
+                        req.append("get() returns exactly the value fcn returned")
+                    if f["calls"] != "1":
+                        req.append("fcn executed exactly once")
+                    if f["ended_at_dtor_return"] != "1":
+                        req.append("~AsyncTask returns only after the task has ended")
+                    if sc in ("finget", "finfinget", "waitget") and f["fin"] != "1":
+                        req.append("finished() is true after wait()/polling")
+                    if sc in ("finget", "finfinget") and float(f["get_ms"]) > 100.0:
+                        req.append("finished()==true implies get() does not block (took %s ms)" % f["get_ms"])
+                    if req:
+                        bad("asynctask-value", b, args, l, "; ".join(req))
                     else:
-                        ctx.broken.append("trace correspondence: harness live-set and extracted lifetime machine disagree on %r (%s)" % (tr, ml))
-            ctx.cov["slot_trace_histogram"] = thist
-
-    # ---- TSan (quick too): poll finished() until true, then get() WITHOUT waiting — the flag is the only thing ordering
-    # "retValue = fcn()" before "return retValue"; heap-owning result types
-    for b in tsan:
-        for ty in ("string", "vector"):
-            args = ["asynctask", str(ctx.pick(4, 12)), ty, "finget"]
-            rc, lines, err = run_mode(b, args, prefix="ht_")
-            ctx.count(len(lines))
+                        if ty != "int" or f["work_ms"] != "0":
+                            ctx.nontriv(("at", b, ty, sc, f["work_ms"]))
+                    if ty == "tracked":
+                        trace_cases.append((b, args, l, f))
+        except SkipStage:
+            pass
+        except Exception as ex:
+            stage_fail("scenario group [AsyncTask<T>] on the %s backend" % b, ex)
+        try:
+            # ---- destroy while running
+            args = ["destroy", str(dreps)]
+            rc, lines, err = run_mode(b, args)
+            ctx.count(dreps)
             if rc != 0:
-                in_at = "AsyncTask.h" in err
-                bad("asynctask-data-race" if in_at else "data-race", b + "(tsan)", args,
-                    "ThreadSanitizer (rc=%d): %s%s" % (rc, san_summary(err), "; frames in rkcommon/tasking/AsyncTask.h: " +
-                                                        " | ".join(re.findall(r"AsyncTask<[^\n]*?>::(\w+\([^)]*\))[^\n]*AsyncTask\.h:(\d+)", err)[i][0] + ":" +
-                                                                   re.findall(r"AsyncTask<[^\n]*?>::(\w+\([^)]*\))[^\n]*AsyncTask\.h:(\d+)", err)[i][1]
-                                                                   for i in range(min(3, len(re.findall(r"AsyncTask<[^\n]*?>::(\w+\([^)]*\))[^\n]*AsyncTask\.h:(\d+)", err))))) if in_at else ""),
-                    "script: construct AsyncTask<%s>; poll finished() until true; get() — no data race on the result" % ty, err)
+                bad("asynctask-crash", b, args, "harness rc=%d: %s" % (rc, san_summary(err)), "no crash, no sanitizer report", err)
+            elif not lines or kv(lines[-1]).get("not") != "0":
+                bad("asynctask-dtor", b, args, lines[-1] if lines else "<no output>", "destroying an AsyncTask first waits for its task")
             else:
-                ctx.nontriv(("tsan-finget", b, ty))
-    # ---- thorough: more TSan on the std::thread-based backend
-    for b in (tsan if ctx.thorough() else []):
-        for args in (["burst", "1000"], ["async", str(areps)], ["asynctask", str(treps), "string"], ["destroy", str(dreps)]):
-            rc, lines, err = run_mode(b, args, prefix="ht_")
+                ctx.nontriv(("destroy", b))
+        except SkipStage:
+            pass
+        except Exception as ex:
+            stage_fail("scenario group [destroy while running] on the %s backend" % b, ex)
+        try:
+            # ---- one tasking thread, the caller never waits
+            args = ["onethread"]
+            rc, lines, err = run_mode(b, args)
+            ctx.count()
+            f = kv(lines[-1]) if lines else {}
+            if f.get("ran_without_caller_action") == "0":
+                what = ("%s backend initialised with 1 thread: a schedule()d closure had not run after 1.5 s without caller action "
+                        "(after a following parallel_for: ran=%s)" % (b, f.get("ran_after_caller_waited")))
+                if b == "internal":
+                    ctx.violation(what, {"backend": b, "harness_args": "onethread", "observed": lines[-1],
+                                         "required": "executed exactly once, eventually, with no further action required from the caller"},
+                                  signature=ONETHREAD_SIG)
+                else:
+                    bad("onethread", b, args, lines[-1], "executed eventually without caller action")
             if rc != 0:
-                bad("data-race", b + "(tsan)", args, "harness rc=%d: %s" % (rc, san_summary(err)), "no data race", err)
+                bad("schedule-crash", b, args, "harness rc=%d: %s" % (rc, san_summary(err)), "no crash, no sanitizer report", err)
 
-    # ---- inventory closure
-    ctx.cov["inventory"] = inventory(ctx, hist_b, script_hist, traits, set(ctx.cov.get("theorems", [])))
-    ctx.cov["inventory_declarations"] = len(ctx.cov["inventory"])
-    ctx.cov["asynctask_special_member_traits"] = traits
-    # ---- report: one violation per kind, the first concrete case as the failing input
-    for kind, items in sorted(found.items()):
-        first = items[0]
-        backs = sorted({i["backend"] for i in items})
-        ctx.violation("%s on backend(s) %s: %s  (required: %s)" % (kind, ",".join(backs), first["observed"][:300], first["required"]),
-                      {"kind": kind, "backends": backs, "case": first, "more": items[1:6],
-                       "how_to_run": "build harness/C02/harness.cpp for the backend (see lib/vlib.py Ctx.cxx) and run it with harness_args",
-                       "model_on_source_facts": model_says})
+        except SkipStage:
+            pass
+        except Exception as ex:
+            stage_fail("scenario group [one tasking thread, the caller never waits] on the %s backend" % b, ex)
+    try:
+        # ---- trace validation of the instrumented payload against the extracted model
+        if model and trace_cases:
+            cases = ["T 0 " + f["trace"] for (_, _, _, f) in trace_cases]
+            rc, mlines, merr = vlib.run_lines(ctx, model, [], cases)
+            if rc != 0 or len(mlines) != len(cases):
+                ctx.broken.append("model driver failed on traces rc=%s" % rc)
+            else:
+                thist = {}
+                for (b, args, l, f), ml in zip(trace_cases, mlines):
+                    tr = f["trace"]
+                    thist[tr] = thist.get(tr, 0) + 1
+                    harness_clean = tr == tr.upper()                  # live-set of the harness saw no out-of-lifetime operation
+                    model_accepts = ml.startswith("accept")
+                    want_reads = ",".join(["result"] * NGETS[f["script"]]) or "-"
+                    ok = (model_accepts and harness_clean and ("final=Dead:result" in ml) and ml.endswith("reads=" + want_reads)
+                          and tr.upper().count("A") == 1)
+                    if not ok:
+                        if model_accepts == harness_clean or not harness_clean:
+                            bad("asynctask-trace", b, args, l + "   [model: %s]" % ml,
+                                "slot trace = construct; one assign; one read per get(); destroy — each inside the lifetime "
+                                "(a trace the extracted model produces)")
+                        else:
+                            ctx.broken.append("trace correspondence: harness live-set and extracted lifetime machine disagree on %r (%s)" % (tr, ml))
+                ctx.cov["slot_trace_histogram"] = thist
+
+    except SkipStage:
+        pass
+    except Exception as ex:
+        stage_fail("stage [trace validation of the instrumented payload against ]", ex)
+    try:
+        # ---- TSan (quick too): poll finished() until true, then get() WITHOUT waiting — the flag is the only thing ordering
+        # "retValue = fcn()" before "return retValue"; heap-owning result types
+        for b in tsan:
+            for ty in ("string", "vector"):
+                args = ["asynctask", str(ctx.pick(4, 12)), ty, "finget"]
+                rc, lines, err = run_mode(b, args, prefix="ht_")
+                ctx.count(len(lines))
+                if rc != 0:
+                    in_at = "AsyncTask.h" in err
+                    bad("asynctask-data-race" if in_at else "data-race", b + "(tsan)", args,
+                        "ThreadSanitizer (rc=%d): %s%s" % (rc, san_summary(err), "; frames in rkcommon/tasking/AsyncTask.h: " +
+                                                            " | ".join(re.findall(r"AsyncTask<[^\n]*?>::(\w+\([^)]*\))[^\n]*AsyncTask\.h:(\d+)", err)[i][0] + ":" +
+                                                                       re.findall(r"AsyncTask<[^\n]*?>::(\w+\([^)]*\))[^\n]*AsyncTask\.h:(\d+)", err)[i][1]
+                                                                       for i in range(min(3, len(re.findall(r"AsyncTask<[^\n]*?>::(\w+\([^)]*\))[^\n]*AsyncTask\.h:(\d+)", err))))) if in_at else ""),
+                        "script: construct AsyncTask<%s>; poll finished() until true; get() — no data race on the result" % ty, err)
+                else:
+                    ctx.nontriv(("tsan-finget", b, ty))
+    except SkipStage:
+        pass
+    except Exception as ex:
+        stage_fail("stage [TSan (quick too): poll finished() until true, then ge]", ex)
+    try:
+        # ---- thorough: more TSan on the std::thread-based backend
+        for b in (tsan if ctx.thorough() else []):
+            for args in (["burst", "1000"], ["async", str(areps)], ["asynctask", str(treps), "string"], ["destroy", str(dreps)]):
+                rc, lines, err = run_mode(b, args, prefix="ht_")
+                if rc != 0:
+                    bad("data-race", b + "(tsan)", args, "harness rc=%d: %s" % (rc, san_summary(err)), "no data race", err)
+
+    except SkipStage:
+        pass
+    except Exception as ex:
+        stage_fail("stage [thorough: more TSan on the std::thread-based backend]", ex)
+    try:
+        # ---- inventory closure
+        ctx.cov["inventory"] = inventory(ctx, hist_b, script_hist, traits, set(ctx.cov.get("theorems", [])))
+        ctx.cov["inventory_declarations"] = len(ctx.cov["inventory"])
+        ctx.cov["asynctask_special_member_traits"] = traits
+    except SkipStage:
+        pass
+    except Exception as ex:
+        stage_fail("stage [inventory closure]", ex)
+    try:
+        # ---- report: one violation per kind, the first concrete case as the failing input
+        for kind, items in sorted(found.items()):
+            first = items[0]
+            backs = sorted({i["backend"] for i in items})
+            ctx.violation("%s on backend(s) %s: %s  (required: %s)" % (kind, ",".join(backs), first["observed"][:300], first["required"]),
+                          {"kind": kind, "backends": backs, "case": first, "more": items[1:6],
+                           "how_to_run": "build harness/C02/harness.cpp for the backend (see lib/vlib.py Ctx.cxx) and run it with harness_args",
+                           "model_on_source_facts": model_says})
+    except SkipStage:
+        pass
+    except Exception as ex:
+        stage_fail("stage [report: one violation per kind, the first concrete ca]", ex)
     if src_broken and not found:
         ctx.log("source-derived theorems broken but the harness found no failing input; model says: %s" % model_says)
 
+    if skipped:
+        ctx.broken.append("scenarios skipped (missing build / wall-clock budget of the run used up): " + "; ".join(skipped[:12]))
+    ctx.cov["skipped_scenarios"] = skipped
     ctx.cov["parkburst_workers_not_all_parked"] = parked_short
     ctx.cov["internal_pipe_full_closures_run_inline_by_writer"] = pipe_full_inline
     ctx.cov["wakeup_calls_swept"] = wake_calls
